@@ -85,7 +85,8 @@ func ttestReplay(in io.Reader, raw bool, args []string) (*Summary, error) {
 				}
 				return out
 			}
-			a, b := mk(tc.X1), mk(tc.X2)
+			a, okA := guarded(mk(tc.X1))
+			b, okB := guarded(mk(tc.X2))
 			maxabs := 1e-300
 			for _, v := range append(append([]float64{}, a...), b...) {
 				maxabs = math.Max(maxabs, math.Abs(v))
@@ -150,7 +151,6 @@ func ttestReplay(in io.Reader, raw bool, args []string) (*Summary, error) {
 				}
 			}
 			sa, sb := stats.Sample{Xs: a}, stats.Sample{Xs: b}
-			ka, kb := append([]float64{}, a...), append([]float64{}, b...)
 			check("TwoSampleTTest", tc.Pooled, len(a), len(b), 0,
 				func(alt stats.LocationHypothesis) (*stats.TTestResult, error) {
 					return stats.TwoSampleTTest(sa, sb, alt)
@@ -187,8 +187,8 @@ func ttestReplay(in io.Reader, raw bool, args []string) (*Summary, error) {
 						return stats.OneSampleTTest(sa, mu0, alt)
 					}, nil)
 			}
-			if !bitsEqual(a, ka) || !bitsEqual(b, kb) {
-				sum.viol("argument-modified", c, "a t-test changed its input")
+			if !okA() || !okB() {
+				sum.viol("argument-modified", c, "a t-test or MeanCI changed its input (or the spare capacity behind it)")
 			}
 			// MeanCI on x1
 			for _, conf := range []float64{-1, 0, 0.5, 0.9, 0.99, 1, 2} {
